@@ -95,6 +95,22 @@ pub fn cases(tier: Tier) -> Vec<Case> {
             for (i, f) in fs.iter().enumerate() {
                 for (j, g) in gs.iter().enumerate() {
                     out.push(Case::Compose { k, f: f.clone(), g: g.clone(), layout: ((i + j) % 5) as u8 });
+                    // arenas whose root was replaced with add_root (the root is not node 0, a former tree stays behind
+                    // unreachable): 100.. the right operand, 200.. both operands
+                    // (quick tier: every third pair of trees with <= 3 nodes, alternating between the two kinds;
+                    // thorough tier: both kinds for every such pair)
+                    if f.n_nodes() <= 3 && g.n_nodes() <= 3 {
+                        let (a, b) = match tier {
+                            Tier::Thorough => (true, true),
+                            Tier::Quick => ((i + j) % 6 == 0, (i + j) % 6 == 3),
+                        };
+                        if a {
+                            out.push(Case::Compose { k, f: f.clone(), g: g.clone(), layout: 100 + ((i + j / 2) % 10) as u8 });
+                        }
+                        if b {
+                            out.push(Case::Compose { k, f: f.clone(), g: g.clone(), layout: 200 + ((i + j / 3) % 4) as u8 });
+                        }
+                    }
                 }
             }
             if k == 2 {
@@ -141,9 +157,12 @@ fn build<const K: usize>(s: &TSpec, layout: u8) -> AffTree<K> {
 
 fn check_compose<const K: usize>(f: &TSpec, g: &TSpec, layout: u8, apply: Option<&Aff>) -> CaseOut {
     let mut out = CaseOut::default();
-    let ft: AffTree<K> = build::<K>(f, layout);
+    // layout < 100: storage layouts of gen::build_layout; 100..199: g re-rooted (variant = parity), f in layout
+    // (layout - 100) % 5; 200..: f re-rooted (variant = bit 1) and g re-rooted (variant = bit 0)
+    let ft: AffTree<K> = if layout >= 200 { f.build_rerooted::<K>((layout - 200) / 2) } else { build::<K>(f, layout % 100) };
     let gt: AffTree<K> = match apply {
         Some(a) => AffTree::<K>::from_aff(if layout % 2 == 1 { a.to_real_f() } else { a.to_real() }),
+        None if layout >= 100 => g.build_rerooted::<K>(layout),
         None => build::<K>(g, layout + 1),
     };
     let sf = snap(&ft);
@@ -262,8 +281,8 @@ pub fn run(tier: Tier) -> Report {
     let total = par_cases(&cs, |_, c| run_case(c));
     rep.absorb(total);
     rep.set("bound", match tier {
-        Tier::Quick => "pairs (f,g): K=2 depth<=2 nodes<=5 (all trees with <=3 nodes, every 9th larger one), K=4 depth<=1 nodes<=4; dims (1,1,1),(2,2,1),(2,1,2),(1,2,1); apply_func for every terminal map",
-        Tier::Thorough => "pairs (f,g): K=2 depth<=2 nodes<=7 (every 7th larger one), K=4 nodes<=5; six dimension triples",
+        Tier::Quick => "pairs (f,g): K=2 depth<=2 nodes<=5 (all trees with <=3 nodes, every 9th larger one), K=4 depth<=1 nodes<=4; dims (1,1,1),(2,2,1),(2,1,2),(1,2,1); apply_func for every terminal map; every third pair of trees with <=3 nodes also over arenas re-rooted with add_root (right operand / both operands)",
+        Tier::Thorough => "pairs (f,g): K=2 depth<=2 nodes<=7 (every 7th larger one), K=4 nodes<=5; six dimension triples; every pair of trees with <=3 nodes also over arenas re-rooted with add_root (right operand, and both operands)",
     });
     rep.assume("operands are read through the public arena API; reading bound to real evaluate/find_terminal by conformance calls");
     rep.assume("exact rational arithmetic; all constants dyadic so the stored f64 tree is the exact tree");
